@@ -276,6 +276,92 @@ def run(ctx: core.Ctx, prop: str):
     ctx.count("files_changed_by_first_run", n_changed)
     if prop == "C02":
         run_local_import_round(ctx, jobs, outs)
+    if prop == "C07":
+        run_present_keyword_round(ctx, jobs, outs)
+
+
+def _added_keywords(before: str, after: str):
+    """[(call node in `before`, [keyword names the run added to it])] — calls paired by callee text, in source order"""
+    import ast
+    try:
+        tb, ta = ast.parse(before), ast.parse(after)
+    except (SyntaxError, ValueError):
+        return []
+    def calls(t):
+        out = {}
+        for n in sorted((n for n in ast.walk(t) if isinstance(n, ast.Call)), key=lambda n: (n.lineno, n.col_offset)):
+            out.setdefault(ast.dump(n.func), []).append(n)
+        return out
+    cb, ca = calls(tb), calls(ta)
+    res = []
+    for k, lb in cb.items():
+        la = ca.get(k, [])
+        if len(la) != len(lb):
+            continue
+        for nb, na in zip(lb, la):
+            kb = {x.arg for x in nb.keywords if x.arg}
+            added = [x.arg for x in na.keywords if x.arg and x.arg not in kb]
+            if added:
+                res.append((nb, added))
+    return res
+
+
+def run_present_keyword_round(ctx, jobs, outs):
+    """Second round for C07: the keyword a hardening codemod adds is already spelled out on the call, with a value it does not
+    expect (None / a name): whatever the first run makes of it, a second run must leave it alone."""
+    derived = {}
+    for job, o in zip(jobs, outs):
+        if o.get("worker_error"):
+            continue
+        for s in o["subprojects"]:
+            if s["error"] or s["tool"] is not None:
+                continue
+            for f, before in s["before"].items():
+                a1 = s["after1"].get(f)
+                if not f.endswith(".py") or a1 is None or a1 == before:
+                    continue
+                for node, added in _added_keywords(before, a1)[:2]:
+                    blines = [l.encode("utf-8") for l in before.splitlines(keepends=True)]
+                    pos = sum(len(b) for b in blines[:node.end_lineno - 1]) + node.end_col_offset - 1
+                    data = before.encode("utf-8")
+                    if data[pos:pos + 1] != b")":
+                        continue
+                    for val in ("None", "DEFAULT_VALUE"):
+                        ins = ", ".join(f"{k}={val}" for k in added)
+                        sep = "" if not (node.args or node.keywords) else ", "
+                        text = (data[:pos] + (sep + ins).encode() + data[pos:]).decode("utf-8")
+                        if val == "DEFAULT_VALUE":
+                            text = "DEFAULT_VALUE = None\n" + text if not text.startswith("from __future__") else text
+                        if e2e.parses(text):
+                            lst = derived.setdefault(o["codemod"], [])
+                            if len(lst) < (4 if ctx.quick() else 16):
+                                lst.append((f"present_keyword_{val}", text))
+    jobs2 = []
+    for cm, lst in sorted(derived.items()):
+        files = {f"k{i}.py": t for i, (_, t) in enumerate(lst)}
+        meta = {f"k{i}.py": {"variant": lab} for i, (lab, _) in enumerate(lst)}
+        jobs2.append({"codemod": cm, "subprojects": [{"files": files, "meta": meta, "tool": None, "results": None}]})
+    if not jobs2:
+        return
+    for job, o in zip(jobs2, e2e.run_jobs(ctx, jobs2)):
+        cm = o["codemod"]
+        if o.get("worker_error"):
+            continue
+        for s in o["subprojects"]:
+            if s["error"]:
+                continue
+            for f, before in s["before"].items():
+                a1, a2 = s["after1"].get(f), s["after2"].get(f)
+                if not f.endswith(".py") or a1 is None:
+                    continue
+                variant = s["meta"].get(f, {}).get("variant", "?")
+                ctx.count(f"variant:{variant}")
+                ctx.case({"codemod": cm, "variant": variant, "before": before[:400], "after": a1[:400]},
+                         nontrivial_key=(cm, before) if a1 != before else None, sample=a1 != before)
+                if a2 != a1:
+                    ctx.violation(classify("C07", cm, before, a1, a2), f"second run of {cm} changed the file again (variant {variant})",
+                                  {"codemod": cm, "filename": f, "variant": variant, "before": before, "after_first_run": a1,
+                                   "after_second_run": a2, "expected": "run(run(P)) == run(P)"})
 
 
 def _added_imports(before: str, after: str):
